@@ -1242,6 +1242,14 @@ class FoldConstantsPass(ir.passes.InPlacePass):
         elif self.shape_inference and not _is_control_flow_op(node):
             self._do_inference(node)
 
+        if any(attr.is_ref() for attr in node.attributes.values()):
+            # The value of a reference attribute is only known at the call sites of the
+            # function: the node cannot be evaluated here (its default value does not apply).
+            logger.debug(
+                "Skipping constant folding for node %r: it has a reference attribute.", node.name
+            )
+            return None
+
         if node.domain not in self._opset_imports:
             logger.debug(
                 "Skipping constant folding for node %r due to missing opset import for domain %r.",
